@@ -1029,6 +1029,7 @@ def c10(tier, seed):
     c.cov["exhaustive"] = True
     c.cov["bounds"] = {"model": "N in {0,1,2,3,4,7,8}, L in 0..4N+3, chunk counts 0..3"}
     c.conform(binary, scns, "chunks", sub="views")
+    c.conform(binary, [{"case": "big", "prop": "C10", "d": {"op": "zsthuge", "shape": s, "sub": l}} for s in ("1", "2", "3", "7") for l in ("isize_max_plus_1", "2^63+5", "usize_max")], "huge-zst-slices", sub="big")
     if tier != "quick":
         c.asan_pass("chunks", sub="views")
     c.assumptions.append("the const-evaluator half of the quantifier is covered by C18's generated const items")
@@ -1086,6 +1087,16 @@ def c09(tier, seed):
     c.conform(binary, [s for s in with_etys(scns, ["tk", "zst", "plain", "tk24", "p1"]) if not (s["d"]["n"] + s["d"].get("m", 0) > 120 and (s["ety"] == "p1" or (tier == "quick" and s["ety"] not in ("tk", "plain"))))], "owned")
     if tier != "quick":
         c.asan_pass("owned")
+    # lengths far above the value pool's: 2048, 2049, 4097 (contents summarised; plain elements)
+    bigs = []
+    for shape in ("2048", "2049", "4097"):
+        n = int(shape)
+        for sub in ("remove", "swap_remove"):
+            for i in sorted({0, 1, 2, 511, n // 2 - 1, n // 2, n - 2, n - 1}):
+                bigs.append({"case": "big", "prop": "C09", "d": {"op": "bigseq", "shape": shape, "sub": sub, "arg": i}})
+        for sub in ("pop_back", "pop_front", "append", "prepend", "split1", "split1024"):
+            bigs.append({"case": "big", "prop": "C09", "d": {"op": "bigseq", "shape": shape, "sub": sub, "arg": 0}})
+    c.conform(binary, bigs, "very-long-arrays", sub="big")
     rows = views_from_model(c, "MC_Views", lambda d: d["api"] in ("split_ref", "split_mut"))
     vs = []
     for d in rows:
@@ -1266,6 +1277,8 @@ def c16(tier, seed):
     lens = [0, 1, 2, 3] if tier == "quick" else [0, 1, 2, 3, 4, 8]
     scns = alloc_scenarios(lens, ["tk", "zst", "plain"], "C16", panics=True)
     c.conform(binary, scns, "ledger", nontrivial=lambda s: True)
+    # the allocator ledger over multi-MiB blocks (a layout chosen by size must still be the layout the block is freed with)
+    c.conform(binary, [{"case": "big", "prop": "C16", "d": {"op": op, "shape": sh, "rec": True}} for op in BIG_OPS for sh in ("1m_u64", "256x16k")], "ledger-large-blocks", sub="big")
     fails = alloc_failure_scenarios(c, binary, [s for s in scns if tier != "quick" or s["ety"] != "plain"], "ledger")
     c.cov["fault_points"] = len(fails)
     c.conform(binary, fails, "alloc-failure", nontrivial=lambda s: True)
@@ -1381,6 +1394,7 @@ def c17(tier, seed):
     c.cov["bounds"] = {"model": "N in 0..%d, every 0/1 script of length <= N+2, an element error at every index, 14 hint modes" % (2 if tier == "quick" else 4), "real formats": "serde_json, serde_json::Value, bincode; N in %s" % lens}
     c.conform(binary, with_etys(scns, ["tk", "zst", "plain", "plz"]), "serde")
     borrowed_elements_program(c, binary)
+    c.conform(binary, [{"case": "big", "prop": "C17", "d": {"op": "bigserde", "shape": s}} for s in ("4097", "8192")], "above-4096", sub="big")
     c.assumptions.append("outside the claim (and accepted either way): a SeqAccess that reports 0 elements left while still holding elements")
     return c.finish()
 
